@@ -29,6 +29,7 @@ import datetime as dt
 import io
 import json
 import os
+import pathlib
 import random
 import shutil
 import signal
@@ -178,7 +179,9 @@ class _Checker(object):
                          witness=wit,
                          detail='%s raised %s: %s; contract: a Document or ParserException, nothing else'
                                 % (entry, type(val).__name__, str(val)[:160]))
-                return
+                if not (lenient and case['wf_root_ok']):
+                    return
+                # a lenient reader that lets a foreign exception through on acceptable input breaks that clause as well
             if case['other_version'] and not isinstance(val, InvalidVersionException):
                 col.fail(check=part + '/version',
                          cls={'clause': 'version', 'feature': 'ParserException@%s' % _site(val)},
@@ -888,6 +891,346 @@ def _classify_xml(case):
         case['other_version'] = True
 
 
+# ---- stored form of a file: encoding x declaration x byte order mark x line ends x file name ---------------
+#
+# Everything above reaches the readers as UTF-8 bytes of a Python string.  A file is more than its text: it is a
+# byte sequence in SOME encoding, with or without byte order mark, with or without (correct) encoding declaration,
+# with some line-end convention, stored under some name and handed over as path string, path object, open binary
+# or text handle, other file-like object, bytes or str.  The generators below enumerate that space.
+#
+# Which stored forms are certainly well-formed XML (so that the lenient clauses apply) is decided here from the XML
+# recommendation (4.3.3 and appendix F), never from what lxml does; expat must agree as well (_classify_xml):
+#   * UTF-16 with byte order mark, no declaration or a declaration naming UTF-16             -> well-formed
+#   * UTF-8 with or without byte order mark, no declaration or a declaration naming UTF-8    -> well-formed
+#   * ISO-8859-1 / windows-1252 / US-ASCII bytes whose declaration names that very encoding  -> well-formed
+#   * ASCII-only bytes, no declaration or one naming any ASCII-compatible encoding of the list -> well-formed
+#   * everything else (wrong declaration, missing declaration on non-UTF bytes, UTF-16 without mark, UTF-32,
+#     EBCDIC, multi-byte and less common 8-bit encodings, unknown names)      -> no claim: totality clauses only
+
+_BOM8, _BOM16LE, _BOM16BE = b'\xef\xbb\xbf', b'\xff\xfe', b'\xfe\xff'
+_BOM32LE, _BOM32BE = b'\xff\xfe\x00\x00', b'\x00\x00\xfe\xff'
+
+# (label, python codec, byte order mark, canonical encoding name or None when no claim is ever made)
+ENC_STORAGE_MAIN = [
+    ('utf-8', 'utf-8', b'', 'utf-8'), ('utf-8+bom', 'utf-8', _BOM8, 'utf-8'),
+    ('iso-8859-1', 'latin-1', b'', 'iso-8859-1'), ('windows-1252', 'cp1252', b'', 'windows-1252'),
+    ('utf-16-le+bom', 'utf-16-le', _BOM16LE, 'utf-16'), ('utf-16-be+bom', 'utf-16-be', _BOM16BE, 'utf-16'),
+]
+ENC_STORAGE_MORE = [
+    ('us-ascii', 'ascii', b'', 'us-ascii'),
+    ('utf-16-le', 'utf-16-le', b'', None), ('utf-16-be', 'utf-16-be', b'', None),
+    ('utf-32-le+bom', 'utf-32-le', _BOM32LE, None), ('utf-32-be+bom', 'utf-32-be', _BOM32BE, None),
+    ('utf-32-le', 'utf-32-le', b'', None), ('iso-8859-15', 'iso8859-15', b'', None), ('koi8-r', 'koi8-r', b'', None),
+    ('shift_jis', 'shift_jis', b'', None), ('ebcdic-cp037', 'cp037', b'', None),
+]
+# declared name -> canonical name (own table of the aliases used here)
+ENC_DECLS_MAIN = [(None, None), ('UTF-8', 'utf-8'), ('ISO-8859-1', 'iso-8859-1'), ('windows-1252', 'windows-1252'),
+                  ('UTF-16', 'utf-16'), ('US-ASCII', 'us-ascii'), ('bogus-enc', '?')]
+ENC_DECLS_MORE = [('utf-8', 'utf-8'), ('utf8', '?'), ('latin1', '?'), ('iso-8859-1', 'iso-8859-1'), ('UTF-16LE', '?'),
+                  ('UTF-16BE', '?'), ('UTF-32', '?'), ('ISO-8859-15', '?'), ('KOI8-R', '?'), ('Shift_JIS', '?'),
+                  ('ebcdic-cp-us', '?'), ('', '?'), ('UTF-7', '?')]
+ASCII_COMPATIBLE = ('utf-8', 'iso-8859-1', 'windows-1252', 'us-ascii')
+# what goes into the text: nothing (ASCII only), Latin-1 range, windows-1252 specials (bytes 0x80-0x9f), other BMP, astral
+SPICES = [('ascii-only', ''), ('latin-1-range', 'J\xfcrgen M\xfcller \xe9\xdf'), ('cp1252-specials', '€ “q” –'),
+          ('bmp', '٣ 日本 Ю'), ('astral', '\U0001F600')]
+NEWLINES = [('LF', '\n'), ('CRLF', '\r\n'), ('CR', '\r')]
+
+
+def _enc_tree(spice, variant):
+    """(root, keep paths, problem) of the small file all stored forms are made of; names and texts carry the spice."""
+    prop = N('property', kids=[N('name', 'p' + spice), N('value', '[v%s,w]' % spice), N('type', 'string')])
+    sub = N('section', kids=[N('name', 'sub'), N('type', 't')])
+    sec = N('section', kids=[N('name', 's' + spice), N('type', 't'), N('definition', spice or 'd'), prop, sub])
+    root = N('odML', kids=[N('author', 'A' + spice), R('<!-- c %s -->' % spice), sec], attrs=[('version', CURRENT)])
+    sp = ('S', 's' + spice)
+    keep = {(sp,), (sp, ('P', 'p' + spice)), (sp, ('S', 'sub'))}
+    problem = False
+    if variant == 'unknown-element':
+        root.kids.insert(1, N('foo', 'x' + spice))
+        problem = True
+    elif variant == 'other-version':
+        root.attrs = [('version', '1.0')]
+        keep = None
+    elif variant == 'big':
+        # larger than any read buffer: multi-byte characters end up on chunk borders
+        root.kids[0].text = 'A' + (spice or 'a') * (70000 // max(1, len(spice)))
+    return root, keep, problem
+
+
+def _pretty(n, nl, depth=0):
+    """Serialisation with line ends and indentation between elements (element content only)."""
+    if isinstance(n, R) or not any(isinstance(k, N) for k in n.kids):
+        return '  ' * depth + _ser(n)
+    attrs = ''.join(' %s="%s"' % (k, _esc(v).replace('"', '&quot;')) for k, v in n.attrs)
+    return '  ' * depth + '<%s%s>' % (n.tag, attrs) + nl + ''.join(_pretty(k, nl, depth + 1) + nl for k in n.kids) \
+        + '  ' * depth + '</%s>' % n.tag
+
+
+def _claim_wf(canon, bom, dcanon, ascii_only):
+    """True when the stored form is certainly well-formed by the XML recommendation, else None (no claim)."""
+    if canon is None or dcanon == '?':
+        return None
+    if canon == 'utf-16':
+        return True if bom and dcanon in (None, 'utf-16') else None
+    if dcanon == 'utf-16':
+        return None
+    if canon == 'utf-8':
+        if dcanon in (None, 'utf-8'):
+            return True
+        return True if ascii_only and not bom else None
+    # iso-8859-1, windows-1252, us-ascii bytes
+    if dcanon == canon:
+        return True
+    return True if ascii_only else None
+
+
+def _bcase(data, text, tcodec, fam, feat, wf, wf_text, problem=False, keep=None, witness=None):
+    wit = dict(witness or {})
+    wit['bytes'] = repr(data if len(data) <= 300 else data[:300] + b'...')
+    return {'data': data, 'text': text, 'tcodec': tcodec, 'fam': fam, 'feat': feat, 'wf': wf, 'wf_text': wf_text,
+            'problem': problem, 'keep': keep, 'witness': wit}
+
+
+def _xml_encoded(tier):
+    """A small valid (or slightly damaged) file in every stored form."""
+    quick = tier == 'quick'
+    storages = ENC_STORAGE_MAIN + ([] if quick else ENC_STORAGE_MORE)
+    decls = ENC_DECLS_MAIN + ([] if quick else ENC_DECLS_MORE)
+    variants = ['valid', 'unknown-element', 'other-version']
+    for label, codec, bom, canon in storages:
+        for sname, spice in SPICES:
+            try:
+                spice.encode(codec)
+            except UnicodeEncodeError:
+                continue
+            for variant in variants + (['big'] if (sname in ('ascii-only', 'latin-1-range', 'astral')) else []):
+                if variant == 'big' and quick and label not in ('utf-8', 'utf-16-le+bom', 'iso-8859-1'):
+                    continue
+                root, keep, problem = _enc_tree(spice, variant)
+                for dname, dcanon in decls:
+                    if variant == 'big' and dname not in (None, 'UTF-8', 'ISO-8859-1', 'UTF-16'):
+                        continue
+                    for nlname, nl in NEWLINES:
+                        if nlname != 'LF' and (variant != 'valid' or (quick and dcanon not in (None, canon))):
+                            continue
+                        decl = '' if dname is None else '<?xml version="1.0" encoding="%s"?>%s' % (dname, nl)
+                        text = decl + _pretty(root, nl) + nl
+                        data = bom + text.encode(codec)
+                        wf = _claim_wf(canon, bool(bom), dcanon, spice == '')
+                        # decoded text: its declaration is void; claim only when there is none or it says UTF-8
+                        wf_text = True if dcanon in (None, 'utf-8') else None
+                        yield _bcase(data, text, 'utf-8-sig' if bom == _BOM8 else codec.replace('-le', '').replace('-be', '')
+                                     if bom else codec, 'stored-form',
+                                     '%s declared %s, %s, %s, %s' % (label, dname, sname, variant, nlname),
+                                     wf, wf_text, problem=problem, keep=keep,
+                                     witness={'storage': label, 'declared': dname, 'content': sname, 'variant': variant,
+                                              'newline': nlname})
+
+
+BYTE_ALPHABET = [b'\x00', b'<', b'a', b'\x80', b'\xc3', b'\xa9', b'\xe2', b'\xef', b'\xbb', b'\xbf', b'\xfe', b'\xff',
+                 b'\xed', b'\xa0', b'\xf4', b'\x90']
+BYTES_CURATED = [
+    b'\xef\xbb\xbf', b'\xff\xfe', b'\xfe\xff', b'\xff\xfe\x00\x00', b'\x00\x00\xfe\xff', b'\xef\xbb', b'\xff',
+    b'\xef\xbb\xbf\xef\xbb\xbf<odML version="1.1"/>', b'\xef\xbb\xbf<odML version="1.1"/>\xef\xbb\xbf',
+    b'<odML version="1.1"/>\xef\xbb\xbf', b' \xef\xbb\xbf<odML version="1.1"/>',
+    b'\xff\xfe<odML version="1.1"/>', b'\xef\xbb\xbf' + '<odML version="1.1"/>'.encode('utf-16-le'),
+    b'\xff\xfe' + '<odML version="1.1"/>'.encode('utf-16-le')[:-1],                 # odd number of bytes
+    b'\xff\xfe' + '<odML version="1.1"><author>'.encode('utf-16-le') + b'\x00\xd8' + '</author></odML>'.encode('utf-16-le'),
+    b'\xff\xfe' + '<odML version="1.1"><author>'.encode('utf-16-le') + b'\x00\xdc\x00\xd8' + '</author></odML>'.encode('utf-16-le'),
+    b'\xff\xfe' + '<odML version="1.1"/>'.encode('utf-16-be'),                       # mark says LE, bytes are BE
+    b'<odML version="1.1"><author>J\xfcrgen</author></odML>',                        # Latin-1 bytes, nothing declared
+    b'<?xml version="1.0" encoding="UTF-8"?><odML version="1.1"><author>J\xfcrgen</author></odML>',
+    b'<?xml version="1.0" encoding="US-ASCII"?><odML version="1.1"><author>J\xc3\xbcrgen</author></odML>',
+    b'<?xml version="1.0" encoding="windows-1252"?><odML version="1.1"><author>\x81\x8d\x8f\x90\x9d</author></odML>',
+    b'<odML version="1.1"><author>\xc3</author></odML>', b'<odML version="1.1"><author>x</author></odML>\xc3',
+    b'<odML version="1.1"><author>\xc0\xaf</author></odML>',                         # overlong
+    b'<odML version="1.1"><author>\xed\xa0\x80\xed\xb0\x80</author></odML>',         # surrogates in UTF-8
+    b'<odML version="1.1"><author>\xf4\x90\x80\x80</author></odML>',                 # beyond U+10FFFF
+    b'<odML version="1.1"><author>\xef\xbf\xbe</author></odML>',                     # U+FFFE
+    b'<odML version="1.1"><J\xfc>x</J\xfc></odML>', b'<odML version="1.1" a\xfc="1"/>', b'<odML version="1.\xb9"/>',
+    b'<odML version="1.1"><!-- \xfc --></odML>', b'<odML version="1.1"><?p \xfc?></odML>',
+    b'<?xml version="1.0" encoding="\xfc"?><odML version="1.1"/>', b'<?xml version="1.0" enc\xfcding="UTF-8"?><odML version="1.1"/>',
+    b'<odML version="1.1"><author>' + b'a' * 70000 + b'\xfc</author></odML>',       # bad byte far behind the first buffer
+    b'<odML version="1.1"><author>' + b'a' * 65535 + b'\xc3',                        # file ends inside a character
+    b'<?xml version="1.0" encoding="ISO-8859-1"?><odML version="1.1"><author>' + b'\xfc' * 70000 + b'</author></odML>',
+    b'\x1f\x8b\x08\x00\x00\x00\x00\x00\x00\x03',                                     # gzip magic
+    b'PK\x03\x04', b'\x00' * 64, b'\xff' * 64, b'\x4c\x6f\xa7\x94',                   # zip, NULs, 0xff, EBCDIC '<?xm'
+    b'<\x00o\x00d\x00M\x00L\x00', b'\x00<\x00o\x00d\x00M\x00L', b'<\x00\x00\x00o\x00\x00\x00',
+]
+
+
+def _xml_bytes(tier, rnd):
+    """Byte sequences that are not (certainly) the encoding of any text: no well-formedness claim, totality only."""
+    for data in BYTES_CURATED:
+        yield _bcase(data, None, None, 'arbitrary-bytes-curated', repr(data[:40]), None, None)
+    maxlen = 2 if tier == 'quick' else 3
+
+    def words(n):
+        if n == 0:
+            yield b''
+            return
+        for w in words(n - 1):
+            for c in BYTE_ALPHABET:
+                yield w + c
+    frames = [('bare', b'%s'), ('in text', b'<odML version="1.1"><author>%s</author></odML>'),
+              ('in tag', b'<odML version="1.1"><a%s/></odML>'),
+              ('in text, Latin-1 declared', b'<?xml version="1.0" encoding="ISO-8859-1"?><odML version="1.1"><author>%s</author></odML>')]
+    for n in range(1, maxlen + 1):
+        for w in words(n):
+            for fname, frame in frames:
+                yield _bcase(frame % w, None, None, 'arbitrary-bytes-short',
+                             'all byte strings of length %d over %d bytes, %s' % (n, len(BYTE_ALPHABET), fname), None, None)
+    # damaged stored forms
+    bases = []
+    for label, codec, bom, dname in (('utf-8', 'utf-8', b'', 'UTF-8'), ('iso-8859-1', 'latin-1', b'', 'ISO-8859-1'),
+                                     ('windows-1252', 'cp1252', b'', 'windows-1252'),
+                                     ('utf-16-le+bom', 'utf-16-le', _BOM16LE, 'UTF-16'), ('utf-16-be+bom', 'utf-16-be', _BOM16BE, None),
+                                     ('utf-8+bom', 'utf-8', _BOM8, None)):
+        spice = SPICES[1][1] if codec in ('latin-1', 'cp1252') else SPICES[1][1] + SPICES[3][1] + SPICES[4][1]
+        root, _keep, _p = _enc_tree(spice, 'valid')
+        decl = '' if dname is None else '<?xml version="1.0" encoding="%s"?>\n' % dname
+        bases.append((label, bom + (decl + _pretty(root, '\n')).encode(codec)))
+    pool = [0x00, 0x80, 0xc3, 0xff, 0xfe, 0x3c, 0x3e, 0x26, 0x0d]
+    for i in range(300 if tier == 'quick' else 6000):
+        label, data = bases[i % len(bases)]
+        b = bytearray(data)
+        ops = []
+        for _ in range(rnd.choice([1, 1, 2, 3])):
+            op = rnd.choice(['set', 'set', 'delete', 'double', 'truncate', 'bom'])
+            k = rnd.randrange(len(b)) if b else 0
+            if not b:
+                break
+            if op == 'set':
+                b[k] = rnd.choice(pool + [rnd.randrange(256)])
+            elif op == 'delete':
+                del b[k]
+            elif op == 'double':
+                b.insert(k, b[k])
+            elif op == 'truncate':
+                del b[max(1, k):]
+            else:
+                b[k:k] = rnd.choice([_BOM8, _BOM16LE, _BOM16BE])
+            ops.append(op)
+        yield _bcase(bytes(b), None, None, 'damaged-stored-form', 'random byte damage of a %s file' % label, None, None,
+                     witness={'storage': label, 'ops': ops})
+
+
+FILE_NAMES = ['plain.xml', 'with space.xml', '\xfcn\xef c\xf6d\xe9.xml', '日本.odml', '\U0001F600.xml', 'a%20b.xml',
+              'a%41.xml', 'a%zz.xml', '%', 'a#b.xml', 'a?b=c.xml', 'a&b.xml', '-dash.xml', 'noext', 'misleading.json',
+              'misleading.gz', 'a:b.xml', 'http:x.xml', 'file:x.xml', 'a;b.xml', 'a+b.xml', "a'b.xml", 'a"b.xml',
+              'a\\b.xml', 'a<b>.xml', 'a\nb.xml', 'a\tb.xml', '~tilde.xml', '$HOME.xml', '*.xml', 'x' * 200 + '.xml',
+              '.hidden', 'UPPER.XML', os.path.join('dir%20x', 'in.xml'), os.path.join('dir#y', 'in.xml'),
+              os.path.join('d\xefr', 'in.xml')]
+
+
+def _xml_named(tier):
+    """One valid file (two stored forms) under many file names: (case, relative file name)."""
+    for label, codec, dname in (('utf-8', 'utf-8', 'UTF-8'), ('iso-8859-1', 'latin-1', 'ISO-8859-1')):
+        spice = SPICES[1][1]
+        root, keep, _p = _enc_tree(spice, 'valid')
+        text = '<?xml version="1.0" encoding="%s"?>\n' % dname + _pretty(root, '\n') + '\n'
+        for name in FILE_NAMES:
+            yield _bcase(text.encode(codec), text, codec, 'file-name', '%r (%s)' % (name[:30], label), True, None,
+                         keep=keep, witness={'file_name': name, 'storage': label}), name
+
+
+class _Chunked(object):
+    """The least a file-like object can be: read(n) only, a few bytes at a time (characters get split)."""
+
+    def __init__(self, data, step=7):
+        self.data, self.pos, self.step = data, 0, step
+
+    def read(self, n=-1):
+        n = self.step if n is None or n < 0 else min(n, self.step)
+        out = self.data[self.pos:self.pos + n]
+        self.pos += len(out)
+        return out
+
+
+class _PathLike(object):
+    """os.PathLike that is not a pathlib class."""
+
+    def __init__(self, path):
+        self.path = path
+
+    def __fspath__(self):
+        return self.path
+
+
+def _byte_case_plan(case, path, named_only=False):
+    """[(entry, lenient, kind, make_argument, call)] for one stored file; kind 'bytes' | 'text' selects the facts."""
+    data, text = case['data'], case['text']
+    plan = []
+
+    def xr(lenient):
+        return XMLReader(ignore_errors=lenient, show_warnings=False)
+
+    for lenient in (False, True):
+        plan.append(('XMLReader.from_file(path str)', lenient, 'bytes', lambda: path, 'from_file'))
+        plan.append(('XMLReader.from_file(pathlib.Path)', lenient, 'bytes', lambda: pathlib.Path(path), 'from_file'))
+        plan.append(('XMLReader.from_file(open binary handle)', lenient, 'bytes', lambda: open(path, 'rb'), 'from_file'))
+        plan.append(('XMLReader.from_file(relative path str)', lenient, 'bytes', lambda: os.path.relpath(path), 'from_file'))
+        if named_only:
+            continue
+        plan.append(('XMLReader.from_file(BytesIO)', lenient, 'bytes', lambda: io.BytesIO(data), 'from_file'))
+        plan.append(('XMLReader.from_file(read()-only object, 7-byte chunks)', lenient, 'bytes',
+                     lambda: _Chunked(data, 7 if len(data) < 5000 else 4099), 'from_file'))
+        plan.append(('XMLReader.from_string(bytes)', lenient, 'bytes', lambda: data, 'from_string'))
+        if text is not None:
+            plan.append(('XMLReader.from_file(open text handle)', lenient, 'text',
+                         lambda: open(path, 'r', encoding=case['tcodec'], newline=''), 'from_file'))
+            plan.append(('XMLReader.from_file(StringIO)', lenient, 'text', lambda: io.StringIO(text), 'from_file'))
+            plan.append(('XMLReader.from_string(str)', lenient, 'text', lambda: text, 'from_string'))
+    plan.append(('ODMLReader(XML).from_file(path str)', True, 'bytes', lambda: path, 'odmlreader_file'))
+    plan.append(('odml.load(path str)', True, 'bytes', lambda: path, 'load'))
+    plan.append(('odml.load(pathlib.Path)', True, 'bytes', lambda: pathlib.Path(path), 'load'))
+    if not named_only:
+        plan.append(('odml.load(os.PathLike)', True, 'bytes', lambda: _PathLike(path), 'load'))
+        plan.append(('ODMLReader(XML).from_string(bytes)', False, 'bytes', lambda: data, 'odmlreader_string'))
+        if text is not None:
+            plan.append(('ODMLReader(XML).from_string(str)', False, 'text', lambda: text, 'odmlreader_string'))
+    for entry, lenient, kind, make, how in plan:
+        reader = None
+        if how == 'from_file':
+            reader = xr(lenient)
+            fn = reader.from_file
+        elif how == 'from_string':
+            reader = xr(lenient)
+            fn = reader.from_string
+        elif how == 'odmlreader_file':
+            fn = ODMLReader('XML', show_warnings=True).from_file
+        elif how == 'odmlreader_string':
+            fn = ODMLReader('XML', show_warnings=True).from_string
+        else:
+            fn = lambda arg: odml.load(arg, 'xml', True)            # noqa: E731
+        yield entry, lenient, kind, make, fn, reader
+
+
+def _run_byte_case(col, chk, case, path, named_only=False):
+    """All entry points on one stored file; facts are classified separately for the byte form and the decoded text."""
+    facts = {}
+    fb = dict(case)
+    _classify_xml(fb)
+    facts['bytes'] = fb
+    if case['text'] is not None:
+        ft = dict(case, wf=case['wf_text'], data=None)
+        _classify_xml(ft)
+        facts['text'] = ft
+    with open(path, 'wb') as fh:
+        fh.write(case['data'])
+    crc = zlib.crc32(case['data'])
+    for entry, lenient, kind, make, fn, reader in _byte_case_plan(case, path, named_only):
+        arg = make()
+        try:
+            out = _run(fn, arg)
+        finally:
+            if hasattr(arg, 'close'):
+                arg.close()
+        col.case(cls_key=(case['fam'], case['feat'], crc, entry, lenient),
+                 sample='%s: %s | %s %s' % (case['fam'], case['feat'], entry, 'lenient' if lenient else 'strict'))
+        chk.check(facts[kind], entry, lenient, out, reader.warnings if reader is not None else None)
+
+
 XML_ENTRIES = [('XMLReader.from_string', False), ('XMLReader.from_string', True),
                ('XMLReader.from_file(file-like)', False), ('XMLReader.from_file(file-like)', True),
                ('XMLReader.from_file(path)', False), ('XMLReader.from_file(path)', True),
@@ -950,6 +1293,24 @@ def run_xml(tier, seed):
                                  sample='%s: %s | %s %s' % (case['fam'], case['feat'], entry,
                                                             'lenient' if lenient else 'strict'))
                         chk.check(case, entry, lenient, out, reader.warnings if reader is not None else None)
+            # stored forms: encodings, declarations, byte order marks, line ends, arbitrary bytes, file names
+            rnd_b = random.Random('c16-xml-bytes-%s' % seed)
+            seen_b = set()
+            for gen in (_xml_encoded(tier), _xml_bytes(tier, rnd_b)):
+                for case in gen:
+                    if case['data'] in seen_b:
+                        continue
+                    seen_b.add(case['data'])
+                    _run_byte_case(col, chk, case, path)
+            for case, name in _xml_named(tier):
+                named = os.path.join(WORK, 'names', name)
+                try:
+                    os.makedirs(os.path.dirname(named), exist_ok=True)
+                    with open(named, 'wb'):
+                        pass
+                except (OSError, ValueError):
+                    continue                    # the file system does not take this name
+                _run_byte_case(col, chk, case, named, named_only=True)
     finally:
         shutil.rmtree(WORK, ignore_errors=True)
     return _result(col, chk)
